@@ -81,7 +81,8 @@ structure NumbersInto (st st' : State) : Prop where
   findWorker : ∀ n, st.findWorker n = st'.findWorker n
   reqs : ∀ n, st.reqsOf n = st'.reqsOf n
   events : ∀ n, st.eventsOf n = st'.eventsOf n
-  constrs : ∀ c ∈ st.constrs, c.operand = false → ∃ c' ∈ st'.constrs, c'.operand = false ∧ c'.id = c.id ∧
+  constrs : ∀ c ∈ st.constrs, c.operand = false → ∃ c' ∈ st'.constrs, c'.operand = false ∧
+    (c.optional = true → c'.id = c.id) ∧
     c'.optional = c.optional ∧ ∀ σ, CoreMeaning st σ c.body ↔ CoreMeaning st' σ c'.body
 
 /-- the same task declarations (possibly with other numbers), workers, requirement logs per task, and constraints of
@@ -138,7 +139,9 @@ theorem ValidClean2_into (st st' : State) (σ : Sched) (h : NumbersInto st' st) 
     exact this
   · intro c' hc' hop happ
     obtain ⟨c, hc, hop2, hid, hopt, hm⟩ := h.constrs c' hc' hop
-    exact (hm σ).2 (hv.constrs c hc hop2 (fun ho => by rw [hid]; exact happ (hopt ▸ ho)))
+    exact (hm σ).2 (hv.constrs c hc hop2 (fun ho => by
+      have ho' : c'.optional = true := hopt ▸ ho
+      rw [hid ho']; exact happ ho'))
 
 /-- **C14 (task order, meaning).** -/
 theorem ValidClean2_renumber (st st' : State) (σ : Sched) (h : SameUpToNumbers st st') :
@@ -209,9 +212,85 @@ theorem CoreMeaning_renumTasks (st st' : State) (σ : Sched) (f : Task → Task)
   case forceScheduleN ts n kd => rw [countP_sched_map σ f hf ts]
 
 
-/-! ### non-vacuity: one problem, its two tasks declared in either order -/
+/-! ### the executable relation (`State.numbersIntoB`, evaluated by the driver on pairs of scripts) is sound -/
 
-deriving instance DecidableEq for Cost, Worker, Select, ReqEvent
+theorem sameDecl_renum {t t' : Task} (h : t.sameDecl t' = true) : t' = t.renum t'.num0 := by
+  unfold Task.sameDecl at h
+  exact eq_of_beq h
+
+theorem sameDeclList_countP (σ : Sched) : ∀ (ts ts' : List Task), sameDeclList ts ts' = true →
+    ts'.countP (fun t => σ.sched t.name) = ts.countP (fun t => σ.sched t.name)
+  | [], [], _ => rfl
+  | t :: ts, t' :: ts', h => by
+      simp only [sameDeclList, Bool.and_eq_true] at h
+      have ih := sameDeclList_countP σ ts ts' h.2
+      have hn : t'.name = t.name := by rw [sameDecl_renum h.1]; rfl
+      simp only [List.countP_cons, ih, hn]
+  | [], _ :: _, h => by simp [sameDeclList] at h
+  | _ :: _, [], h => by simp [sameDeclList] at h
+
+/-- constraints that `sameUpTo` relates mean the same, in whatever problems -/
+theorem CoreMeaning_sameUpTo (st st' : State) (σ : Sched) (b b' : CBody) (h : b.sameUpTo b' = true) :
+    CoreMeaning st σ b ↔ CoreMeaning st' σ b' := by
+  cases b <;> cases b' <;> simp only [CBody.sameUpTo, Bool.and_eq_true, beq_iff_eq, Bool.false_eq_true] at h <;>
+    simp only [CoreMeaning]
+  case startAt.startAt t v t' v' => rw [sameDecl_renum h.1, h.2]; exact Iff.rfl
+  case startAfter.startAfter t v s t' v' s' => rw [sameDecl_renum h.1.1, h.1.2, h.2]; exact Iff.rfl
+  case endAt.endAt t v t' v' => rw [sameDecl_renum h.1, h.2]; exact Iff.rfl
+  case endBefore.endBefore t v s t' v' s' => rw [sameDecl_renum h.1.1, h.1.2, h.2]; exact Iff.rfl
+  case precedence.precedence a b off k a' b' off' k' =>
+    rw [sameDecl_renum h.1.1.1, sameDecl_renum h.1.1.2, h.1.2, h.2]; exact Iff.rfl
+  case startSynced.startSynced a b a' b' => rw [sameDecl_renum h.1, sameDecl_renum h.2]; exact Iff.rfl
+  case endSynced.endSynced a b a' b' => rw [sameDecl_renum h.1, sameDecl_renum h.2]; exact Iff.rfl
+  case dontOverlap.dontOverlap a b a' b' => rw [sameDecl_renum h.1, sameDecl_renum h.2]; exact Iff.rfl
+  case forceSchedule.forceSchedule t bb t' bb' => rw [sameDecl_renum h.1, h.2]; exact Iff.rfl
+  case dependency.dependency a b a' b' => rw [sameDecl_renum h.1, sameDecl_renum h.2]; exact Iff.rfl
+  case forceScheduleN.forceScheduleN ts n k ts' n' k' =>
+    rw [sameDeclList_countP σ ts ts' h.1.1, h.1.2, h.2]
+  case forceApplyN.forceApplyN cs n k cs' n' k' => rw [h.1.1, h.1.2, h.2]
+  case sameWorkers.sameWorkers s1 s2 s1' s2' => rw [h.1, h.2]
+
+theorem numbersIntoB_sound {st st' : State} (h : st.numbersIntoB st' = true) : NumbersInto st st' := by
+  unfold State.numbersIntoB at h
+  simp only [Bool.and_eq_true, decide_eq_true_eq] at h
+  obtain ⟨⟨⟨⟨hh, ht⟩, hw⟩, hl⟩, hc⟩ := h
+  refine ⟨hh, ?_, fun w hm => hw ▸ hm, ?_, ?_, ?_, ?_⟩
+  · intro t htm
+    obtain ⟨t', ht', hs⟩ := List.any_eq_true.1 ((List.all_eq_true.1 ht) t htm)
+    exact ⟨t', ht', sameDecl_renum hs⟩
+  · intro n; unfold State.findWorker; rw [hw]
+  · intro n; unfold State.reqsOf State.eventsOf; rw [hl]
+  · intro n; unfold State.eventsOf; rw [hl]
+  · intro c hcm hop
+    have := (List.all_eq_true.1 hc) c hcm
+    simp only [hop, Bool.false_or] at this
+    obtain ⟨c', hc', h1⟩ := List.any_eq_true.1 this
+    simp only [Bool.and_eq_true, Bool.not_eq_true', beq_iff_eq, Bool.or_eq_true] at h1
+    refine ⟨c', hc', h1.1.1.1, ?_, h1.1.2, fun σ => CoreMeaning_sameUpTo st st' σ c.body c'.body h1.2⟩
+    intro ho
+    rcases h1.1.1.2 with h | h
+    · rw [ho] at h; exact absurd h (by simp)
+    · exact h
+
+theorem delaysBelowB_sound {st : State} (h : st.delaysBelowB = true) : DelaysBelowNumber st := by
+  intro t ht r hr
+  have := (List.all_eq_true.1 ((List.all_eq_true.1 h) t ht)) r hr
+  simpa using this
+
+/-- **the executable test is sufficient**: two reachable states that pass `tasksOrderTheoremB` — which the driver
+    evaluates on the models of a script and of its task-permuted twin — get the same feasibility verdict from the
+    encoder and admit the same schedules -/
+theorem tasksOrderTheoremB_sound (cfg cfg' : Config) (st st' : State) (hr : Reachable st) (hr' : Reachable st')
+    (h : st.tasksOrderTheoremB st' = true) :
+    ((∃ ρ, Sat ρ (initFmls cfg st) ∧ 0 ≤ ρ.i .horizon) ↔ (∃ ρ, Sat ρ (initFmls cfg' st') ∧ 0 ≤ ρ.i .horizon)) ∧
+    (∀ ρ, Sat ρ (initFmls cfg st) → 0 ≤ ρ.i .horizon → Sat (envOf st' (schedOf ρ)) (initFmls cfg' st')) := by
+  unfold State.tasksOrderTheoremB at h
+  simp only [Bool.and_eq_true] at h
+  obtain ⟨⟨⟨⟨⟨h1, h2⟩, h3⟩, h4⟩, h5⟩, h6⟩ := h
+  exact C14_tasks_order_verdict cfg cfg' st st' ⟨numbersIntoB_sound h1, numbersIntoB_sound h2⟩
+    (fragmentB_sound hr h3) (fragmentB_sound hr' h4) (delaysBelowB_sound h5) (delaysBelowB_sound h6)
+
+/-! ### non-vacuity: one problem, its two tasks declared in either order -/
 
 def Renum_exA : State :=
   run [.problem "p" (some 12),
@@ -272,7 +351,7 @@ theorem numbersInto_of (st st' : State) (f : Task → Task) (hf : ∀ t, ∃ k, 
   events := fun n => by unfold State.eventsOf; rw [hl]
   constrs := by
     intro c hcm hop
-    refine ⟨{ c with body := c.body.mapTasks f }, ?_, hop, rfl, rfl, ?_⟩
+    refine ⟨{ c with body := c.body.mapTasks f }, ?_, hop, fun _ => rfl, rfl, ?_⟩
     · rw [hc]; exact List.mem_map.2 ⟨c, hcm, rfl⟩
     · intro σ
       exact CoreMeaning_renumTasks st st' σ f hf c.body (htc c hcm)
@@ -296,5 +375,76 @@ theorem Renum_ex_verdict :
     (∀ ρ, Sat ρ (initFmls {} Renum_exA) → 0 ≤ ρ.i .horizon → Sat (envOf Renum_exB (schedOf ρ)) (initFmls {} Renum_exB)) :=
   C14_tasks_order_verdict {} {} _ _ Renum_ex_same Renum_exA_core Renum_exB_core
     (by unfold DelaysBelowNumber; decide +kernel) (by unfold DelaysBelowNumber; decide +kernel)
+
+
+/-- the same instance through the executable test -/
+example : Renum_exA.tasksOrderTheoremB Renum_exB = true := by decide +kernel
+
+
+/-! ### C06 on pairs of scripts: the script without the task, checked by evaluation -/
+
+theorem dropTaskB_eq (st : State) (n : String) : st.dropTaskB n = st.dropTask n := rfl
+
+theorem isGuardedB_eq (b : CBody) : b.isGuardedB = b.isGuarded := by cases b <;> rfl
+
+theorem WFInv_dropTask {st : State} (w : WFInv st) (n : String) : WFInv (st.dropTask n) where
+  nodup := by
+    have : ((st.dropTask n).tasks.map (·.name)).Sublist (st.tasks.map (·.name)) :=
+      List.Sublist.map _ List.filter_sublist
+    exact List.Sublist.nodup this w.nodup
+  events := fun ev hev => w.events ev (List.mem_filter.1 hev).1
+  req_tasks := by
+    intro ev hev
+    obtain ⟨hm, hne⟩ := List.mem_filter.1 hev
+    obtain ⟨t, ht, hn⟩ := w.req_tasks ev hm
+    refine ⟨t, List.mem_filter.2 ⟨ht, ?_⟩, hn⟩
+    rw [hn]; exact hne
+
+/-- **C06 on a pair of scripts.** `full` is the state of a script, `without` the state of the script with every
+    declaration about the optional task `n` removed.  If the pair passes the executable test `dropTaskTheoremB` (which
+    the driver evaluates), then a schedule that leaves `n` unscheduled is valid for the full problem iff it is valid
+    for the problem the shorter script declares. -/
+theorem C06_deletion_sound (full without : State) (n : String) (hr : Reachable full) (hr' : Reachable without)
+    (h : full.dropTaskTheoremB without n = true) (σ : Sched) (hu : σ.sched n = false) :
+    Valid full σ ↔ Valid without σ := by
+  unfold State.dropTaskTheoremB at h
+  simp only [Bool.and_eq_true, dropTaskB_eq] at h
+  obtain ⟨⟨⟨⟨⟨⟨⟨⟨⟨⟨hopt, n1⟩, n2⟩, f1⟩, f2⟩, f3⟩, d1⟩, d2⟩, d3⟩, hsel⟩, hgd⟩ := h
+  have cF : InCoreS full := fragmentB_sound hr f1
+  have cD : InCoreS (full.dropTask n) := fragmentB_sound_wf (WFInv_dropTask (reachable_wf full hr) n) f2
+  have cW : InCoreS without := fragmentB_sound hr' f3
+  -- the task
+  cases hft : full.findTask n with
+  | none => simp [hft] at hopt
+  | some t =>
+      simp only [hft] at hopt
+      obtain ⟨htm, htn⟩ := findTask_mem hft
+      have step2 : Valid (full.dropTask n) σ ↔ Valid without σ :=
+        Valid_renumber _ _ σ ⟨numbersIntoB_sound n1, numbersIntoB_sound n2⟩ cD cW (delaysBelowB_sound d2)
+          (delaysBelowB_sound d3)
+      constructor
+      · intro hv
+        exact step2.1 (C06_absent_restrict full n σ cD hv)
+      · intro hv
+        refine C06_absent_extend full n σ cF cD t htm htn hopt hu ?_ ?_ ?_ (step2.2 hv)
+        · intro r hr2
+          exact delaysBelowB_sound d1 t htm r (htn ▸ hr2)
+        · intro s rs hmem
+          have := (List.all_eq_true.1 hsel) _ hmem
+          simp at this
+        · intro c hc hop hnam _
+          have := (List.all_eq_true.1 hgd) c hc
+          simp only [hop, hnam, Bool.false_or, Bool.not_true, isGuardedB_eq] at this
+          obtain ⟨t', ht', hn'⟩ := List.any_eq_true.1 hnam
+          have hname : t'.name = n := eq_of_beq hn'
+          -- the named task is `t`: the constraint's tasks are declared tasks of the problem
+          have hfind := (cF.constrs c hc hop).2.2 t' ht'
+          have ht'eq : t' = t := by
+            rw [hname] at hfind
+            exact Option.some.inj (hfind.symm.trans hft)
+          apply C06_inert_guarded full σ c.body this t' ht'
+          rw [ht'eq]
+          unfold Sched.isSched
+          rw [htn, hu, hopt]; rfl
 
 end PS
